@@ -74,7 +74,10 @@ def letterAt (orig : List Nat) (letters : List Char) (r : Nat) : Char :=
   | some i => letters.getD i '?'
   | none => '?'
 
-/-- the target's answers and `tryDelivery`'s classification for one scripted attempt -/
+/-- the target's answers and `tryDelivery`'s classification for one scripted attempt: `next` /
+`failed` pick the ENTRIES of the list classified "retry" / "given up" (the letter of an address is
+the one of its first position in the accepted list, so every entry naming it is classified alike);
+that each address is then kept / reported once is the model's `pending` / `givenUp` -/
 def mkStep (orig : List Nat) (partialD : Bool) (letters : List Char) (bounce : Bool) (unrep : List Nat) : Step :=
   let l := letterAt orig letters
   let dsn : Option Dsn := if bounce then
